@@ -1,9 +1,13 @@
 #!/usr/bin/env python3
 """Regenerate Chess/Gen/*.lean and gen/constants.json from /repo's working tree.
 
-Every item is REQUIRED: a missing pattern raises ExtractError(item) and the
-caller (./check) reports the tie as broken (obligation `extract:<item>`).
-Nothing is defaulted.
+Every item is REQUIRED. The items are extracted in GROUPS (zobrist, scores, deltas, letters,
+constants, unsafe inventory); when a pattern of a group is missing the group is reported as a
+BROKEN TIE together with the properties that consume it (./check reports exactly those as
+`extract:<item>` obligations), and the group's LAST GOOD values (gen/extract_cache.json, written
+only by fully successful runs) keep the model buildable so that the other properties can still be
+checked and the search for a failing input can still run. Nothing is ever defaulted: without a
+cached good value the run fails.
 """
 import hashlib
 import json
@@ -81,10 +85,7 @@ def rays(item, s):
     return out
 
 
-def main():
-    C = {}  # everything extracted, echoed to constants.json
-    src = {}
-
+def g_zobrist(C):
     # ------------------------------------------------------------ zobrist
     z = read("src/chess/zobrist.rs")
     m = need("zobrist.file", r'include_bytes!\("\.\./\.\./(zobrist_bytes\.bin)"\)', z)
@@ -130,7 +131,10 @@ def main():
     m = need("readme.starthash", r"starting position hash is always `([0-9A-F]{16})`", readme)
     start_hash = int(m.group(1), 16)
     C["start_hash"] = m.group(1)
+    return dict(btm=btm, emp=emp, state=state, piece=piece, s_btm=s_btm, s_emp=s_emp, s_st=s_st, s_pc=s_pc, start_hash=start_hash, digest=digest)
 
+
+def g_scores(C):
     # ------------------------------------------------------------ scores
     sc = read("src/chess/scores.rs")
     tables = {}
@@ -171,7 +175,13 @@ def main():
     need("piece.as_index", r"let mut index = self\.piece_type as usize;\s*if self\.owner == Player::Black \{\s*index \+= 6;", pc)
     need("piece.score.row", r"Player::White => 7 - pos\.row\(\),\s*Player::Black => pos\.row\(\),", pc)
     need("piece.score.sign", r"piece_score \* self\.owner as Score", pc)
+    return dict(tables=tables, thr=thr, mat=mat, ptorder=ptorder)
 
+
+def g_deltas(C):
+    mod = read("src/chess/mod.rs")
+    pc = read("src/chess/piece.rs")
+    ptorder = ["Queen", "Rook", "Bishop", "Knight", "Pawn", "King"]
     # ------------------------------------------------------------ deltas
     body, _ = fn_body("piece.get_moves", pc, r"pub fn get_moves\(self, mut push: impl FnMut\(Move\), game: &Game, pos: Position\) \{")
     m = need("piece.rays.rook", r"PieceType::Rook => \{\s*search_deltas!\[(.*?)\];", body)
@@ -231,7 +241,12 @@ def main():
         homes[name] = (int(mm.group(1)), int(mm.group(2)))
     need("position.as_usize", r"\(self\.0 \* 8 \+ self\.1\) as usize", pos)
     C["homes"] = homes
+    return dict(rook_rays=rook_rays, bishop_rays=bishop_rays, queen_rays=queen_rays, king_deltas=king_deltas, knight_deltas=knight_deltas, first_row=first_row, last_row=last_row, ep_row=ep_row, normal_delta=normal_delta, first_delta=first_delta, side_deltas=side_deltas, promo_orders=promo_orders, t_king=t_king, t_knight=t_knight, t_pawn_w=t_pawn_w, t_pawn_b=t_pawn_b, t_lines=t_lines, t_diags=t_diags, homes=homes)
 
+
+def g_letters(C):
+    pc = read("src/chess/piece.rs")
+    ptorder = ["Queen", "Rook", "Bishop", "Knight", "Pawn", "King"]
     # ------------------------------------------------------------ letters
     def letters(item, text, fn_re, keyre=r"PieceType::(\w+) => '(.)'"):
         b, _ = fn_body(item, text, fn_re)
@@ -256,7 +271,11 @@ def main():
     if len(uci_promo) != 4 or len(pgn_promo) != 4:
         raise ExtractError("move.promo_letters", "expected 4 letters each")
     C["letters"] = {"ascii": ascii_tab, "pgn": pgn_tab, "from": from_tab, "uci_promo": uci_promo, "pgn_promo": pgn_promo}
+    return dict(ascii_tab=ascii_tab, pgn_tab=pgn_tab, from_tab=from_tab, glyph_w=glyph_w, glyph_b=glyph_b, uci_promo=uci_promo, pgn_promo=pgn_promo)
 
+
+def g_constants(C):
+    mod = read("src/chess/mod.rs")
     # ------------------------------------------------------------ capacities & search constants
     m = need("mod.state_cap", r"state: ArrayVec<GameState, (\d+)>", mod)
     state_cap = int(m.group(1))
@@ -303,7 +322,10 @@ def main():
                  "len_guard": len_guard, "tt": tt_cap, "max_depth": max_depth_const}
     C["search"] = {"mate": mate, "exit_hi": exit_hi, "exit_lo": exit_lo, "full_window": int(full_window[0])}
     C["time"] = {"fraction": fraction, "latency": latency, "cut": cut}
+    return dict(state_cap=state_cap, moves_cap=moves_cap, killer_len=killer_len, history_len=history_len, len_guard=len_guard, max_depth_const=max_depth_const, mate=mate, exit_hi=exit_hi, exit_lo=exit_lo, full_window=full_window, latency=latency, cut=cut, fraction=fraction, tt_cap=tt_cap)
 
+
+def g_unsafe(C):
     # ------------------------------------------------------------ unchecked-site inventory
     sites = []
     srcdir = os.path.join(REPO, "src")
@@ -328,8 +350,75 @@ def main():
                     for _ in re.finditer(pat, line):
                         sites.append({"file": rel, "fn": cur_fn, "kind": kind, "line": ln})
     C["unsafe_sites"] = sites
+    return dict(sites=sites)
 
-    # ------------------------------------------------------------ emit Lean
+
+GROUPS = [
+    ('zobrist', g_zobrist, ['C03', 'C04', 'C05', 'C06', 'C11', 'C17', 'C18', 'C19']),
+    ('scores', g_scores, ['C03', 'C09', 'C10', 'C16', 'C19']),
+    ('deltas', g_deltas, ['C01', 'C02', 'C03', 'C06', 'C07', 'C09', 'C10', 'C12', 'C15', 'C18', 'C19']),
+    ('letters', g_letters, ['C11', 'C12', 'C17', 'C20']),
+    ('capacities & search constants', g_constants, ['C06', 'C07', 'C08', 'C09', 'C10', 'C13', 'C15', 'C18', 'C19']),
+    ('unchecked-site inventory', g_unsafe, ['C15']),
+]
+
+
+def emit(V, C, broken):
+    btm = V['btm']
+    emp = V['emp']
+    state = V['state']
+    piece = V['piece']
+    s_btm = V['s_btm']
+    s_emp = V['s_emp']
+    s_st = V['s_st']
+    s_pc = V['s_pc']
+    start_hash = V['start_hash']
+    digest = V['digest']
+    tables = V['tables']
+    thr = V['thr']
+    mat = V['mat']
+    ptorder = V['ptorder']
+    rook_rays = V['rook_rays']
+    bishop_rays = V['bishop_rays']
+    queen_rays = V['queen_rays']
+    king_deltas = V['king_deltas']
+    knight_deltas = V['knight_deltas']
+    first_row = V['first_row']
+    last_row = V['last_row']
+    ep_row = V['ep_row']
+    normal_delta = V['normal_delta']
+    first_delta = V['first_delta']
+    side_deltas = V['side_deltas']
+    promo_orders = V['promo_orders']
+    t_king = V['t_king']
+    t_knight = V['t_knight']
+    t_pawn_w = V['t_pawn_w']
+    t_pawn_b = V['t_pawn_b']
+    t_lines = V['t_lines']
+    t_diags = V['t_diags']
+    homes = V['homes']
+    ascii_tab = V['ascii_tab']
+    pgn_tab = V['pgn_tab']
+    from_tab = V['from_tab']
+    glyph_w = V['glyph_w']
+    glyph_b = V['glyph_b']
+    uci_promo = V['uci_promo']
+    pgn_promo = V['pgn_promo']
+    state_cap = V['state_cap']
+    moves_cap = V['moves_cap']
+    killer_len = V['killer_len']
+    history_len = V['history_len']
+    len_guard = V['len_guard']
+    max_depth_const = V['max_depth_const']
+    mate = V['mate']
+    exit_hi = V['exit_hi']
+    exit_lo = V['exit_lo']
+    full_window = V['full_window']
+    latency = V['latency']
+    cut = V['cut']
+    fraction = V['fraction']
+    tt_cap = V['tt_cap']
+    sites = V['sites']
     os.makedirs(OUT, exist_ok=True)
     os.makedirs(os.path.dirname(GEN_JSON), exist_ok=True)
 
@@ -464,7 +553,66 @@ end Chess.Gen
     ch1 = write_if_changed(os.path.join(OUT, "Zobrist.lean"), zl)
     ch2 = write_if_changed(os.path.join(OUT, "Tables.lean"), tl)
     write_if_changed(GEN_JSON, json.dumps(C, indent=1, sort_keys=True, ensure_ascii=False) + "\n")
-    print(json.dumps({"ok": True, "changed": [ch1, ch2], "zobrist_sha256": digest, "unsafe_sites": len(sites)}))
+    print(json.dumps({"ok": True, "changed": [ch1, ch2], "zobrist_sha256": digest, "unsafe_sites": len(sites), "broken": broken}))
+
+
+
+
+# which properties' THEOREMS consume an item (longest matching prefix wins); every other property is
+# tied to the code behind the item by the correspondence check alone, which reports real
+# behavioural differences by itself
+ITEM_PROPS = [
+    ("zobrist.", ["C04", "C05"]), ("readme.", ["C04"]),
+    ("scores.", ["C16"]), ("mod.piece_scores_order", ["C16"]), ("mod.update_phase", ["C16"]), ("mod.is_endgame", ["C16"]),
+    ("mod.Player", ["C16", "C04"]), ("piece.PieceType", ["C16", "C04"]), ("piece.material_value", ["C09"]),
+    ("piece.as_index", ["C04"]), ("piece.score", ["C16"]),
+    ("mod.is_targeted", ["C01", "C02"]), ("piece.rays", ["C01", "C02"]), ("piece.get_moves", ["C01", "C02"]),
+    ("piece.king_deltas", ["C01", "C02"]), ("piece.get_king_moves", ["C01", "C02"]),
+    ("piece.knight_deltas", ["C01", "C02"]), ("piece.get_knight_moves", ["C01", "C02"]),
+    ("piece.pawn", ["C01", "C02", "C15"]), ("piece.get_pawn_moves", ["C01", "C02", "C15"]),
+    ("position.", ["C02", "C15"]),
+    ("piece.as_char_ascii", ["C11"]), ("piece.from_char_ascii", ["C17"]), ("piece.as_str_pgn", ["C20"]),
+    ("piece.as_char", ["C20"]), ("piece.letters", ["C11", "C17", "C20"]),
+    ("move.uci_notation", ["C12"]), ("move.pgn_notation", ["C20"]), ("move.promo_letters", ["C12", "C20"]),
+    ("mod.state_cap", ["C15"]), ("mod.moves_cap", ["C15"]), ("uci.len_guard", ["C15", "C12"]),
+    ("search.killer_len", ["C08", "C15"]), ("search.MAX_DEPTH", ["C08", "C15"]), ("search.limit", ["C08"]),
+    ("search.loop", ["C08"]), ("search.exit_at_limit", ["C08"]), ("search.history_len", ["C08", "C15"]),
+    ("search.mate", ["C10"]), ("search.exit_", ["C10", "C08"]), ("search.full_window", ["C09"]), ("search.root_window", ["C09"]),
+    ("uci.FRACTION", ["C13"]), ("uci.LATENCY", ["C13"]), ("uci.cut", ["C13"]), ("constants.", []),
+]
+
+
+def props_of_item(item, default):
+    best = None
+    for pre, props in ITEM_PROPS:
+        if item.startswith(pre) and (best is None or len(pre) > len(best[0])):
+            best = (pre, props)
+    return best[1] if best else default
+
+
+def main():
+    cache_path = os.path.join(os.path.dirname(GEN_JSON), "extract_cache.json")
+    try:
+        with open(cache_path) as f:
+            cache = json.load(f)
+    except Exception:
+        cache = {}
+    V, C, broken = {}, {}, []
+    for name, fn, props in GROUPS:
+        try:
+            vals = json.loads(json.dumps(fn(C)))          # normalise (tuples -> lists) exactly as the cache does
+            cache[name] = vals
+        except ExtractError as e:
+            if name not in cache:
+                raise
+            broken.append({"group": name, "item": e.item, "msg": str(e)[:300], "properties": props_of_item(e.item, props)})
+            vals = cache[name]
+        V.update(vals)
+    os.makedirs(os.path.dirname(GEN_JSON), exist_ok=True)
+    if not broken:
+        with open(cache_path, "w") as f:
+            json.dump(cache, f)
+    emit(V, C, broken)
 
 
 if __name__ == "__main__":
